@@ -2,11 +2,12 @@
 
 K2  Python sorted()/str_to_pascal_case vs the model's sort_uniq/pascal_s (the theorems reason about these).
 K1a (volume, in-process) FragmentsGenerator._get_sorted_fragments_names vs Model/Fragments.v `toposort` on seeded
-    DAGs with the dependency collections handed over as LISTS, so the iteration order is the oracle on both sides.
+    DAGs with the dependency collections handed over as shuffled LISTS; since /repo 93e79d6 the code sorts them, which
+    is the model's identity oracle - exact equality.
 K1b every scenario through the REAL generator: class skeletons (name, bases, in file order) of every operation
     module and of fragments.py, the imports from the fragments module, and the existence of the module, vs
     `generate_package`; the class order of fragments.py must be one of the orders the model produces for some
-    iteration order of the dependency sets (all enumerated when <= 64), and must define every class after its bases.
+    iteration order of the dependency sets (exactly one since /repo 93e79d6), and must define every class after its bases.
 K3  on the imported packages: all modules import, all models complete; __bases__/__mro__ of every generated class
     contain the fragment classes exactly as the model says; every directly spread fragment that satisfies the
     property's premise is a base; @mixin classes are imported bases; objects returned by client methods are
@@ -116,7 +117,7 @@ def k2_and_k1a(ctx):
         rng.shuffle(given)
         cases.append((given, deps))
         tbl = [[a, sorted(d)] for a, d in deps.items()]
-        orc = [[a, d] for a, d in deps.items()]
+        orc = []   # /repo 93e79d6: the code iterates sorted(deps) - the identity oracle of the model
         cmds.append([Sym("toposort"), tbl, list(deps), given, orc])
     res = model.batch("C08", cmds)
     bad = 0
@@ -179,29 +180,12 @@ def mro_hazards(pkg):
 
 
 def candidate_orders(enc, snake, base_pkg, cap=64):
-    """class-name orders of fragments.py the model allows: one per iteration order of the dependency sets."""
+    """class-name order of fragments.py according to the model.  Since /repo 93e79d6 dependency sets are iterated in
+    sorted order (the model's identity oracle), so there is exactly one order; before, one per iteration order."""
     mod = base_pkg["module"]
     if mod is None:
         return [], True
-    sets = {n: base_pkg["table"].get(n, []) for n in mod["names"]}
-    multi = {n: d for n, d in sets.items() if len(d) > 1}
-    total = 1
-    for d in multi.values():
-        total *= len(list(itertools.permutations(d)))
-        if total > cap:
-            return [], False
-    keys = list(multi)
-    cmds = []
-    for combo in itertools.product(*[list(itertools.permutations(multi[k])) for k in keys]):
-        cmds.append(enc.command(snake, {k: list(p) for k, p in zip(keys, combo)}))
-    outs = []
-    for r in model.batch("C08", cmds):
-        p = frag_inputs.decode_package(r)
-        if p and p["module"]:
-            o = [c["name"] for n in p["module"]["order"] for c in p["module"]["classes"][n]]
-            if o not in outs:
-                outs.append(o)
-    return outs, True
+    return [[c["name"] for n in mod["order"] for c in mod["classes"][n]]], True
 
 
 def check_package(run, sc, g, enc, pkg, tag, rep, orders, complete, drive_calls):
